@@ -4,7 +4,7 @@
    cs over every segmentation. *)
 From Coq Require Import List Arith NArith Bool Lia.
 Import ListNotations.
-Require Import FV.Gen.C07 FV.C07.Model FV.C07.Lemmas FV.C07.Refuted.
+Require Import FV.Gen.C07 FV.C07.Model FV.C07.Lemmas FV.C07.Utf8 FV.C07.Wellformed FV.C07.Refuted.
 Local Open Scope N_scope.
 
 (* obligations on the facts regenerated from /repo (Gen/C07.v) *)
@@ -19,7 +19,9 @@ Theorem C07_source_facts :
   (* tables: the only handler without a reply tuple is the one of the help request, which never reaches the
      dispatcher; every handler's reply action is the one REQUEST2REPLY gives for its name; the error names used by the
      request loop are SECoP error classes *)
-  crash_free_table = true /\ alias_not_help = true /\ handlers_match_table = true /\ names_closed = true.
+  crash_free_table = true /\ alias_not_help = true /\ handlers_match_table = true /\ names_closed = true /\
+  (* all constants that end up in frames are encodable text without line terminator *)
+  consts_good = true.
 Proof. repeat split; reflexivity. Qed.
 
 Local Definition HT : crash_free_table = true := eq_refl.
@@ -78,6 +80,15 @@ Proof. intros; eapply decode_msg_fields; eassumption. Qed.
 Theorem C07_never_terminates : forall E evs, alive (serve E evs) = true /\ get_msg (buf (serve E evs)) = None.
 Proof. intros; apply (serve_inv HT HA). Qed.
 
+(* every frame handed to sendall - replies, error replies to arbitrary bytes, events sent by other threads - is exactly
+   one line: UTF-8 text that decodes back to itself, without a line terminator inside, followed by the terminator.
+   Premises: the received data are bytes; what the oracles supply (json.dumps output, str(err), messages sent by
+   handlers and other threads) is text without line terminator (env_ok, ev_ok; checked on every case by the harness's
+   direct oracle).  The data part is the oracle's json.dumps text or the error report built around the error text. *)
+Theorem C07_lines_wellformed : forall E evs, env_ok E -> Forall ev_ok evs ->
+  Forall frame_ok (out (serve E evs)).
+Proof. intros E evs HE Hev; apply (serve_wellformed E HE eq_refl); exact Hev. Qed.
+
 (* nothing leaks into another connection: in a server with several connections the state of connection k
    (buffer, frames sent) is the one it reaches from its own events alone *)
 Theorem C07_isolation : forall Es evs S k d, (k < length S)%nat ->
@@ -104,6 +115,7 @@ Print Assumptions C07_one_reply_per_line.
 Print Assumptions C07_decoded_request_fields.
 Print Assumptions C07_never_terminates.
 Print Assumptions C07_isolation.
+Print Assumptions C07_lines_wellformed.
 Print Assumptions C07_refuted_leading_blank.
 Print Assumptions C07_refuted_latin1_echo.
 Print Assumptions C07_refuted_ident_alias.
